@@ -3,6 +3,8 @@ package vrt
 import (
 	"fmt"
 	"reflect"
+	"runtime"
+	"sync"
 )
 
 type chanInfo struct{ closed bool }
@@ -209,6 +211,7 @@ type SelCase struct {
 	send  bool
 	cap   int
 	val   interface{}
+	rv    reflect.Value // the channel (free-running fall-back)
 	ready func(s *sched, me *thread) bool
 	do    func(s *sched, me *thread)
 }
@@ -223,6 +226,7 @@ func CaseRecv[T any](ch <-chan T) *SelCase {
 	c.ptr = chanPtr(ch)
 	c.cap = cap(ch)
 	rv := reflect.ValueOf(ch)
+	c.rv = rv
 	c.ready = func(s *sched, me *thread) bool {
 		if c.cap > 0 {
 			return len(ch) > 0 || s.probeClosed(c.ptr, rv)
@@ -273,6 +277,7 @@ func CaseSend[T any](ch chan<- T, v T) *SelCase {
 	}
 	c.ptr = chanPtr(ch)
 	c.cap = cap(ch)
+	c.rv = reflect.ValueOf(ch)
 	c.ready = func(s *sched, me *thread) bool {
 		if s.info(c.ptr).closed {
 			return true
@@ -355,8 +360,9 @@ func Select(hasDefault bool, cases ...*SelCase) int {
 func SelGet[T any](ch <-chan T) (T, bool) {
 	t := curThread()
 	if t == nil {
-		v, _ := fallbackGot.(T)
-		return v, fallbackOK
+		g := freeGot(true)
+		v, _ := g.v.(T)
+		return v, g.ok
 	}
 	v, _ := t.gotVal.(T)
 	t.gotVal = nil
@@ -366,12 +372,73 @@ func SelGet[T any](ch <-chan T) (T, bool) {
 // SelGet1 is SelGet without the ok result.
 func SelGet1[T any](ch <-chan T) T { v, _ := SelGet(ch); return v }
 
+// what the last free-running select of each goroutine received (goroutine id -> value)
+type gotRec struct {
+	v  interface{}
+	ok bool
+}
+
 var (
-	fallbackGot interface{}
-	fallbackOK  bool
+	freeGotMu sync.Mutex
+	freeGots  = map[int64]gotRec{}
 )
+
+func goid() int64 {
+	var buf [64]byte
+	n := runtime.Stack(buf[:], false)
+	var id int64
+	for _, c := range buf[len("goroutine "):n] {
+		if c < '0' || c > '9' {
+			break
+		}
+		id = id*10 + int64(c-'0')
+	}
+	return id
+}
+
+func freeGot(take bool) gotRec {
+	freeGotMu.Lock()
+	defer freeGotMu.Unlock()
+	id := goid()
+	g := freeGots[id]
+	if take {
+		delete(freeGots, id)
+	}
+	return g
+}
 
 // realSelect is the fall-through used outside an exploration (reflect.Select on the real channels).
 func realSelect(hasDefault bool, cases []*SelCase) int {
-	panic("vrt: instrumented select executed outside an exploration (not supported; run the code under vrt.Execute)")
+	rc := make([]reflect.SelectCase, 0, len(cases)+1)
+	for _, c := range cases {
+		switch {
+		case !c.rv.IsValid(): // nil channel: never ready
+			rc = append(rc, reflect.SelectCase{Dir: reflect.SelectRecv, Chan: reflect.ValueOf((chan struct{})(nil))})
+		case c.send:
+			sv := reflect.ValueOf(c.val)
+			if !sv.IsValid() {
+				sv = reflect.Zero(c.rv.Type().Elem())
+			}
+			rc = append(rc, reflect.SelectCase{Dir: reflect.SelectSend, Chan: c.rv, Send: sv})
+		default:
+			rc = append(rc, reflect.SelectCase{Dir: reflect.SelectRecv, Chan: c.rv})
+		}
+	}
+	if hasDefault {
+		rc = append(rc, reflect.SelectCase{Dir: reflect.SelectDefault})
+	}
+	i, v, ok := reflect.Select(rc)
+	if hasDefault && i == len(cases) {
+		return -1
+	}
+	if !cases[i].send && cases[i].rv.IsValid() {
+		var val interface{}
+		if v.IsValid() {
+			val = v.Interface()
+		}
+		freeGotMu.Lock()
+		freeGots[goid()] = gotRec{val, ok}
+		freeGotMu.Unlock()
+	}
+	return i
 }
